@@ -30,14 +30,13 @@ def star_ts(inst):
     for p in range(P):
         tables.nodes.add_row(flags=0, time=p + 1)
     ne = len(edges)
-    sites = []
     for i, e in enumerate(edges):
         tables.edges.add_row(left=0, right=e["span"], parent=ne + e["p"] - 1, child=i)
-        for j in range(e["y"]):
-            sites.append(((j + 1) / (e["y"] + 1) * e["span"] * (1 - 1e-3 * (i + 1)), i))
-    sites.sort()
-    for x, child in sites:
-        s = tables.sites.add_row(position=x, ancestral_state="0")
+    # y_e mutations on edge e, at distinct positions inside [0, 1) (every edge covers at least [0, 1))
+    owners = [i for i, e in enumerate(edges) for _ in range(e["y"])]
+    M = len(owners)
+    for k, child in enumerate(owners):
+        s = tables.sites.add_row(position=(k + 0.5) / M, ancestral_state="0")
         tables.mutations.add_row(site=s, node=child, derived_state="1")
     tables.sort()
     tables.build_index()
